@@ -298,8 +298,15 @@ def wssr_of(S, p):
 
 
 # ----------------------------------------------------------------------------------------------------------------------
+REGISTRY = {}      # description key -> (case, opts): lets a failing case be written out in full (core.Ctx.fail)
+
+
 def case_desc(c, opts=None):
-    d = dict(double=c.double, nx=c.nx, nt=c.nt, span=c.span, irregular=bool(c.irregular), noise=c.noise, var_kind=c.var_kind,
+    k = len(REGISTRY) + 1
+    if len(REGISTRY) > 400:
+        REGISTRY.clear()
+    REGISTRY[k] = (c, opts)
+    d = dict(_k=k, double=c.double, nx=c.nx, nt=c.nt, span=c.span, irregular=bool(c.irregular), noise=c.noise, var_kind=c.var_kind,
              sections=c.sections, trans_att=c.trans_att,
              matching=[[m[0].start, m[0].stop, m[1].start, m[1].stop, m[2]] for m in c.matching])
     if opts:
@@ -425,3 +432,42 @@ def check_wls_case(ctx, c, opts, known_weights=None, compare_full=True):
         in_region = weights_region(c, S_own, cap)
         ctx.fail("; ".join(problems), desc, known=known_weights if in_region else None)
     return out
+
+
+def attach_data(case):
+    """called by Ctx.fail: replace the registry key of a failing case by the full input"""
+    if isinstance(case, dict) and "_k" in case and case["_k"] in REGISTRY:
+        c, opts = REGISTRY[case["_k"]]
+        case = dict(case)
+        case["_data"] = fibre.dump_case(c)
+    return case
+
+
+def replay_with_data(path, prop, runner):
+    """--replay for calibration cases: rebuild the exact input from the replay file and run the property's single-case check on
+    it; exit 1 if the property fails again on the current source, 0 if it holds"""
+    import json
+    import core
+    r = json.loads(open(path).read())
+    case = r.get("case") or {}
+    print(json.dumps(r.get("what") or r.get("no_longer_checks"))[:2000])
+    if not isinstance(case, dict) or "_data" not in case:
+        print("replay: the file holds no input data; re-run `VERIF_SEED=%s harness/vcheck.py %s --tier %s` (cases are regenerated from the seed)"
+              % (r.get("seed"), prop, r.get("tier")))
+        return 1
+    c = fibre.load_case(case["_data"])
+    opts = {}
+    for k, v in (case.get("opts") or {}).items():
+        opts[k] = tuple(np.array(t) if isinstance(t, list) else t for t in v) if isinstance(v, list) else v
+    ctx = core.Ctx(prop, "quick", int(r.get("seed", 0)))
+    try:
+        runner(ctx, c, opts)
+    finally:
+        if ctx.drv is not None:
+            ctx.drv.close()
+    for f in ctx.failures[:3]:
+        print("FAILS AGAIN:", f["what"])
+    for kid, h in ctx.known_hits.items():
+        print("known finding met:", kid)
+    print("property fails on this input" if ctx.failures else "property holds on this input (with the current source)")
+    return 1 if ctx.failures else 0
